@@ -6,9 +6,9 @@
    Model/Reconcile.v (proxy.Manager / visitor.Manager UpdateAll and the manager operations).
    Histories are operation lists; every statement quantifies over all of them. *)
 From Coq Require Import List ZArith Bool.
-From FRP Require Import Model.Health Model.Wrapper Model.Reconcile Model.HealthGate Model.ClientServer
+From FRP Require Import Model.Health Model.Wrapper Model.Reconcile Model.HealthGate Model.ClientServer Model.ClientSvc
   Proofs.HealthProofs Proofs.WrapperProofs Proofs.ReconcileProofs Proofs.ReconcileInv
-  Proofs.VisitorMgrProofs Proofs.HealthGateProofs.
+  Proofs.VisitorMgrProofs Proofs.HealthGateProofs Proofs.ClientSvcProofs Proofs.C19ReloadCheck.
 Import ListNotations.
 Open Scope Z_scope.
 
@@ -212,6 +212,59 @@ Theorem C19_probe_outcomes_decide_registration : forall k max t ops, 1 <= max ->
   Forall (hg_step_ok max t) (snd (hg_run k (hm_full max) t hg_init ops)).
 Proof. intros k max t ops Hm. exact (proj2 (hg_history k max t ops hg_init Hm (hg_inv_init max))). Qed.
 Print Assumptions C19_probe_outcomes_decide_registration.
+
+(* ================= the reload path in every session state ================= *)
+
+(* Service + Control around the two managers (Model/ClientSvc.v).  A reload is enabled in every
+   session state: before the first login, on a live session, and while the client is retrying after a
+   connection loss (the dead Control is still in place).  For EVERY history of reloads (any old and new
+   sets, empty ones included, any duplicates), connection losses and logins, and any visitor.Run()
+   results: whenever a session is live, its proxy table is exactly first-entry-per-name of the proxy
+   set of the LAST reload, its visitor table exactly that of the visitor set of the last reload, and no
+   visitor runs under a name that set does not configure.  In particular a reload to the empty set
+   leaves no proxy and no visitor, and a session established after a reload-while-disconnected registers
+   the reloaded sets, not the ones from before the outage. *)
+Theorem C19_live_session_holds_last_loaded_sets : forall t p0 v0 ops,
+  let s := sv_run t (sv_init p0 v0) ops in
+  match sv_ctl s with
+  | SvLive c => sv_tables_are c (fst (sv_last_cfgs p0 v0 ops)) (snd (sv_last_cfgs p0 v0 ops))
+  | _ => True
+  end.
+Proof.
+  intros t p0 v0 ops. cbv zeta.
+  pose proof (sv_history_inv t ops (sv_init p0 v0) (sv_inv_init p0 v0)) as H.
+  pose proof (sv_cfgs_last t ops (sv_init p0 v0)) as Hc. simpl in Hc. unfold sv_inv in H.
+  destruct (sv_ctl (sv_run t (sv_init p0 v0) ops)); auto.
+  destruct H as [_ H]. rewrite <- Hc. exact H.
+Qed.
+Print Assumptions C19_live_session_holds_last_loaded_sets.
+
+(* one reload on a live session, all pairs of old/new sets: afterwards exactly the new sets *)
+Theorem C19_reload_all_pairs : forall t c p v ok, sv_ctl_wf c ->
+  sv_ctl_wf (sv_ctl_reload t c p v ok) /\ sv_tables_are (sv_ctl_reload t c p v ok) p v.
+Proof. exact sv_ctl_reload_tables. Qed.
+Print Assumptions C19_reload_all_pairs.
+
+(* the structural facts of client/control.go and client/service.go the model relies on, as read
+   from today's source by the translator (gen/GenC19Reload.v): Control.Run and
+   Control.UpdateAllConfigurer call pm.UpdateAll and vm.UpdateAll unconditionally with their own
+   parameters; Service.UpdateAllConfigurer stores both sets and forwards both to the current Control;
+   the login closure reads the configured sets after svr.login() and runs the session with them *)
+Theorem C19_reload_path_structure : c19_reload_facts_ok = true.
+Proof. vm_compute. reflexivity. Qed.
+Print Assumptions C19_reload_path_structure.
+
+Example C19_ex_reload_while_disconnected :
+  let t := {| pw_wait := 20000; pw_errto := 30000 |} in
+  let a := {| rc_name := 1; rc_val := 0; rc_hc := false |} in
+  let b := {| rc_name := 2; rc_val := 0; rc_hc := false |} in
+  let v := {| rc_name := 5; rc_val := 0; rc_hc := false |} in
+  let ok := fun _ : Z => true in
+  match sv_ctl (sv_run t (sv_init [a] [v]) [SVLogin ok; SVLost; SVReload [b] [] ok; SVLogin ok]) with
+  | SvLive c => rc_keys (pm_map (sc_pm c)) = [2] /\ vm_cfgs (sc_vm c) = [] /\ vm_vis (sc_vm c) = []
+  | _ => False
+  end.
+Proof. repeat split. Qed.
 
 (* ================= asynchronous replies: convergence refuted (F-C19c) ================= *)
 
